@@ -866,7 +866,7 @@ func TestCheck(t *testing.T) {
 	run.Assume("memory mode opens pebble through the verif hook VerifNewStoreOnFS, which repeats NewStore's option literal (FS, cache size, memtable size differ)")
 	run.Assume("commits are written with pebble.NoSync: WHICH committed version survives a crash is not constrained, only that it is one of them, whole")
 	run.Assume("disk mode kills the process (SIGKILL): what the operating system had been given survives; power loss is only modelled in memory mode")
-	nMem, nDisk := core.Pick(13, 40), core.Pick(3, 48)
+	nMem, nDisk := core.Pick(13, 32), core.Pick(3, 32)
 	run.Sharded(nMem+nDisk, func(i int) {
 		if i < nMem {
 			if name := fmt.Sprintf("mem/%d", i); run.Want(name) {
